@@ -34,13 +34,18 @@ impl<'a> CommitmentBuilder<'a> {
     pub fn commit(
         statement: &'a CommitmentStatement<G1Projective>,
         message: Scalar,
-        b: Scalar,
+        message_blinder: Scalar,
         mut rng: impl RngCore + CryptoRng,
         transcript: &mut Transcript,
     ) -> CredxResult<Self> {
+        // `message_blinder` is the Schnorr nonce the signature proof uses for this message;
+        // its response is published. The blinding factor of the commitment itself must be
+        // independent of it, otherwise C - response * blinder_generator only depends on the message.
+        let b = Scalar::random(&mut rng);
         let r = Scalar::random(&mut rng);
         let commitment = statement.message_generator * message + statement.blinder_generator * b;
-        let blind_commitment = statement.message_generator * b + statement.blinder_generator * r;
+        let blind_commitment =
+            statement.message_generator * message_blinder + statement.blinder_generator * r;
 
         transcript.append_message(b"", statement.id.as_bytes());
         transcript.append_message(
